@@ -1,0 +1,7 @@
+//go:build !verif
+
+package erpc
+
+func vp(string, *session, int64, int64) {}
+
+func vpb(bool) int64 { return 0 }
